@@ -1244,6 +1244,110 @@ Proof.
   - exact (w_sn _ _ _ _ H).
 Qed.
 
+(* ------------------------------------------------------------------ *)
+(* snapshot_every_n_steps = 1 (the default): every task asks for the worker's state, so the running worker-state entries are
+   EXACT — the entry of worker w is its state right after its LAST passed task that it answered (batch or end-of-shard notice) *)
+Lemma fetch_flag w k t : t_snap t = true ->
+  let '(r, st, k') := worker_fetch c w k t in st = Some (wk_pos k', wk_ended k').
+Proof.
+  intros Hf. unfold worker_fetch. rewrite Hkind, Hf.
+  destruct (wk_ended k); [reflexivity|].
+  destruct (c_bs c =? 0).
+  - destruct (nth_error (shard c w) (wk_pos k)); reflexivity.
+  - destruct ((length (firstn (c_bs c) (skipn (wk_pos k) (shard c w))) =? 0) ||
+              c_drop c && (length (firstn (c_bs c) (skipn (wk_pos k) (shard c w))) <? c_bs c)); reflexivity.
+Qed.
+
+Record InvX (gw rd : nat -> nat) (s : ms) : Prop := {
+  x_q : c_I c = 1 -> forall w, w < W -> forall tk, In tk (wq s w) -> t_snap tk = true;
+  x_i : c_I c = 1 -> forall t w r st, info_get (m_info s) t = Some (w, Some (r, st)) -> st = Some (wst w (S (rd t)));
+  x_s : c_I c = 1 -> forall w, w < W -> exists j, nth w (m_wsnap s) (0, false) = wst w j /\
+          (forall t, t < m_rcvd s -> gw t = w -> rd t <= nb B w -> rd t < j) /\
+          (j = a0 w \/ exists t, t < m_rcvd s /\ gw t = w /\ S (rd t) = j /\ rd t <= nb B w) }.
+
+Definition agreeX (s s' : ms) : Prop := m_workers s' = m_workers s /\ m_wsnap s' = m_wsnap s /\ m_rcvd s' = m_rcvd s.
+
+Lemma InvX_ext gw rd s s' : InvX gw rd s -> agreeX s s' -> (forall t, info_get (m_info s') t = info_get (m_info s) t) -> InvX gw rd s'.
+Proof.
+  intros H (E1 & E2 & E3) Hget. constructor; intros HI.
+  - intros w Hw tk. unfold wq. rewrite E1. exact (x_q _ _ _ H HI w Hw tk).
+  - intros t w r st Hi. rewrite Hget in Hi. exact (x_i _ _ _ H HI t w r st Hi).
+  - rewrite E2, E3. exact (x_s _ _ _ H HI).
+Qed.
+
+Lemma fl_snap_I1 s : c_I c = 1 -> fl_snap s = true.
+Proof. intros HI. unfold fl_snap. rewrite HI. cbn. reflexivity. Qed.
+
+Lemma put_some_invX gw rd s w' c' x y : InvX gw rd s -> m_rcvd s <= m_send s -> w' < length (m_workers s) ->
+  info_get (m_info s) (m_send s) = None ->
+  InvX (upd gw (m_send s) x) (upd rd (m_send s) y) (put_some s w' c').
+Proof.
+  intros H Hkn Hwl Hfresh. constructor; intros HI.
+  - intros w Hw tk Hin. destruct (Nat.eq_dec w w') as [->|Hne].
+    + rewrite wq_put_some_eq in Hin by exact Hwl. apply in_app_or in Hin. destruct Hin as [Hin|[<-|[]]]; [exact (x_q _ _ _ H HI w' Hw tk Hin)|].
+      cbn [t_snap]. apply fl_snap_I1, HI.
+    + rewrite wq_put_some_neq in Hin by exact Hne. exact (x_q _ _ _ H HI w Hw tk Hin).
+  - intros t w r st Hi. cbn [put_some m_info] in Hi. rewrite info_get_app in Hi. destruct (info_get (m_info s) t) as [v|] eqn:E.
+    + destruct (Nat.eq_dec t (m_send s)) as [->|Hne]; [congruence|]. rewrite upd_neq by exact Hne. injection Hi as ->. exact (x_i _ _ _ H HI t w r st E).
+    + destruct (m_send s =? t); discriminate.
+  - cbn [put_some m_wsnap m_rcvd]. intros w Hw. destruct (x_s _ _ _ H HI w Hw) as (j & Ej & Hmax & Hj). exists j. split; [exact Ej|]. split.
+    + intros t Ht. rewrite !upd_neq by lia. apply Hmax, Ht.
+    + destruct Hj as [Hj|(t & T1 & T2 & T3 & T4)]; [left; exact Hj | right; exists t; rewrite !upd_neq by lia; auto].
+Qed.
+
+Lemma put_none_invX gw rd s c' : InvX gw rd s -> InvX gw rd (put_none s c').
+Proof. intros H. constructor; [exact (x_q _ _ _ H) | exact (x_i _ _ _ H) | exact (x_s _ _ _ H)]. Qed.
+
+(* the receive pointer passes task k: either the task was never answered (a retired worker's task beyond its end-of-shard
+   notice), or the entry of its worker takes the state the answer carried *)
+Lemma pass_invX gw rd s ws : InvX gw rd s -> wf_info (m_info s) -> gw (m_rcvd s) < W -> length (m_wsnap s) = W ->
+  (forall t, t < m_rcvd s -> gw t = gw (m_rcvd s) -> rd t < rd (m_rcvd s)) ->
+  ((ws = m_wsnap s /\ nb B (gw (m_rcvd s)) < rd (m_rcvd s)) \/
+   (ws = set_nth (m_wsnap s) (gw (m_rcvd s)) (wst (gw (m_rcvd s)) (S (rd (m_rcvd s)))) /\ rd (m_rcvd s) <= nb B (gw (m_rcvd s)))) ->
+  InvX gw rd (passed s ws).
+Proof.
+  intros H Hwf Hg Hlen Hmono Hws. constructor; intros HI.
+  - exact (x_q _ _ _ H HI).
+  - intros t w r st Hi. unfold passed in Hi. cbn [upd_core m_info] in Hi.
+    destruct (Nat.eq_dec t (m_rcvd s)) as [->|Hne]; [rewrite info_get_del_eq in Hi by exact Hwf; discriminate|].
+    rewrite info_get_del_neq in Hi by lia. exact (x_i _ _ _ H HI t w r st Hi).
+  - unfold passed. cbn [upd_core m_wsnap m_rcvd]. intros w Hw. destruct (x_s _ _ _ H HI w Hw) as (j & Ej & Hmax & Hj).
+    destruct Hws as [[-> Hgt]|[-> Hle]].
+    + exists j. split; [exact Ej|]. split.
+      * intros t Ht Hgw Hr. destruct (Nat.eq_dec t (m_rcvd s)) as [->|Hne]; [rewrite Hgw in *; lia | apply Hmax; auto; lia].
+      * destruct Hj as [Hj|(t & T1 & T2 & T3 & T4)]; [left; exact Hj | right; exists t; repeat split; auto; lia].
+    + destruct (Nat.eq_dec w (gw (m_rcvd s))) as [->|Hne].
+      * rewrite nth_set_nth_eq by (rewrite Hlen; exact Hg). eexists. split; [reflexivity|]. split.
+        -- intros t Ht Hgw Hr. destruct (Nat.eq_dec t (m_rcvd s)) as [->|Hnt]; [lia|]. specialize (Hmono t ltac:(lia) Hgw). lia.
+        -- right. exists (m_rcvd s). repeat split; auto.
+      * rewrite nth_set_nth_neq by (intros E; apply Hne; symmetry; exact E). exists j. split; [exact Ej|]. split.
+        -- intros t Ht Hgw Hr. destruct (Nat.eq_dec t (m_rcvd s)) as [->|Hnt]; [congruence | apply Hmax; auto; lia].
+        -- destruct Hj as [Hj|(t & T1 & T2 & T3 & T4)]; [left; exact Hj | right; exists t; repeat split; auto; lia].
+Qed.
+
+Lemma arrive_invX gw rd a s w2 tk q' : InvX gw rd s -> InvW gw rd a s -> wf_info (m_info s) -> w2 < length (m_workers s) -> w2 < W ->
+  a0 w2 <= a w2 -> rd (t_idx tk) = a w2 -> wq s w2 = tk :: q' ->
+  let '(r, st, k') := worker_fetch c w2 (kpop s w2 q') tk in
+  wk_q k' = q' -> InvX gw rd (arrived s w2 k' (t_idx tk) r st).
+Proof.
+  intros H HWw Hwf Hwl Hw2 Ha0' Hrd Hq.
+  pose proof (fetch_pe w2 (kpop s w2 q') (wsk w2 (a w2)) tk t0 (w_k _ _ _ _ HWw w2 Hw2)) as FP.
+  pose proof (fetch_flag w2 (kpop s w2 q') tk) as FF.
+  destruct (worker_fetch c w2 (kpop s w2 q') tk) as [[r st] k'].
+  destruct (worker_fetch c w2 (wsk w2 (a w2)) t0) as [[r0 st0] k0'] eqn:E0.
+  assert (wstep w2 (wsk w2 (a w2)) = k0') as Est by (unfold wstep; rewrite E0; reflexivity).
+  destruct FP as [Hpe' _]. rewrite <- Est, <- wsk_S in Hpe' by exact Ha0'.
+  intros Hq'. constructor; intros HI.
+  - intros w Hw tk' Hin. unfold wq, arrived in Hin. cbn [m_workers] in Hin. destruct (Nat.eq_dec w w2) as [->|Hne].
+    + rewrite nth_set_nth_eq in Hin by exact Hwl. rewrite Hq' in Hin. apply (x_q _ _ _ H HI w2 Hw tk'). rewrite Hq. right. exact Hin.
+    + rewrite nth_set_nth_neq in Hin by (intros E; apply Hne; symmetry; exact E). exact (x_q _ _ _ H HI w Hw tk' Hin).
+  - intros t w r' st' Hi. cbn [arrived m_info] in Hi. rewrite info_get_set in Hi by exact Hwf. destruct (Nat.eqb_spec (t_idx tk) t) as [<-|Hne].
+    + injection Hi as <- <- <-. rewrite Hrd. rewrite FF by (apply (x_q _ _ _ H HI w2 Hw2 tk); rewrite Hq; left; reflexivity).
+      f_equal. unfold wst. destruct Hpe' as [-> ->]. reflexivity.
+    + exact (x_i _ _ _ H HI t w r' st' Hi).
+  - exact (x_s _ _ _ H HI).
+Qed.
+
 Lemma process_data_gen s3 b w st gw rd :
   m_assert (try_put_index c s3) = None -> InvS (S (m_ny (try_put_index c s3))) gw rd (try_put_index c s3) ->
   1 <= m_rcvd (try_put_index c s3) ->
@@ -1252,12 +1356,13 @@ Lemma process_data_gen s3 b w st gw rd :
   exists sF, process_data c s3 (RData b) w st = (OBatch b, sF) /\ agree (try_put_index c s3) sF /\
              m_info sF = m_info (try_put_index c s3) /\ InvS (m_ny sF) gw rd sF /\ m_ny sF = S (m_ny (try_put_index c s3)) /\
              m_wsnap sF = (match st with Some x => set_nth (m_wsnap (try_put_index c s3)) w x | None => m_wsnap (try_put_index c s3) end) /\
-             (m_snapshot sF = m_snapshot (try_put_index c s3) \/ sn_workers (m_snapshot sF) = m_wsnap sF).
+             (m_snapshot sF = m_snapshot (try_put_index c s3) \/ sn_workers (m_snapshot sF) = m_wsnap sF) /\
+             (c_I c = 1 -> sn_workers (m_snapshot sF) = m_wsnap sF /\ sn_step (m_snapshot sF) = m_ny sF /\ sn_last (m_snapshot sF) = w).
 Proof.
   intros Has HS Hk1 Hb. unfold process_data. set (s2 := try_put_index c s3) in *.
   destruct (Nat.eqb_spec (c_I c) 0) as [EI|NI]; cbn [negb andb].
   - cbn [m_assert]. rewrite Has. eexists. split; [reflexivity|]. split; [unfold agree; cbn; repeat split; first [reflexivity | symmetry; exact Has | exact Has]|].
-    split; [reflexivity|]. cbn [m_ny]. split; [|split; [reflexivity|split; [reflexivity|left; reflexivity]]].
+    split; [reflexivity|]. cbn [m_ny]. split; [|split; [reflexivity|split; [reflexivity|split; [left; reflexivity | intros HI; lia]]]].
     constructor; [exact (s_sorted _ _ _ _ HS) | exact (s_lt _ _ _ _ HS) | exact (s_cov _ _ _ _ HS) | exact (s_cnt _ _ _ _ HS)].
   - cbn [m_ny]. destruct (Nat.eqb_spec (S (m_ny s2) mod c_I c) 0) as [Eb|Nb].
     + destruct (Hb NI Eb) as [m Hin]. unfold take_snapshot. cbn [m_msnaps m_rcvd].
@@ -1265,13 +1370,13 @@ Proof.
       destruct (pop_msnaps (m_msnaps s2) (m_rcvd s2 - 1) None) as [p rest]. destruct Hpop as (P1 & P2 & _ & P4).
       rewrite (P4 _ _ Hin eq_refl). rewrite Nat.eqb_refl. cbn [m_assert]. rewrite Has.
       eexists. split; [reflexivity|]. split; [unfold agree; cbn; repeat split; first [reflexivity | symmetry; exact Has | exact Has]|].
-      split; [reflexivity|]. cbn [m_ny]. split; [|split; [reflexivity|split; [reflexivity|right; reflexivity]]]. constructor; cbn [m_msnaps m_send m_rcvd m_workers m_info].
+      split; [reflexivity|]. cbn [m_ny]. split; [|split; [reflexivity|split; [reflexivity|split; [right; reflexivity | intros _; repeat split; reflexivity]]]]. constructor; cbn [m_msnaps m_send m_rcvd m_workers m_info].
       * eapply msorted_mono; [|exact P1]. lia.
       * intros t m' Hin'. apply P2 in Hin'. exact (s_lt _ _ _ _ HS t m' (proj1 Hin')).
       * intros HI t Ht Hd Hm. destruct (s_cov _ _ _ _ HS HI t Ht Hd Hm) as [m' Hin']. exists m'. apply P2. split; [exact Hin' | cbn; lia].
       * exact (s_cnt _ _ _ _ HS).
     + cbn [m_assert]. rewrite Has. eexists. split; [reflexivity|]. split; [unfold agree; cbn; repeat split; first [reflexivity | symmetry; exact Has | exact Has]|].
-      split; [reflexivity|]. cbn [m_ny]. split; [|split; [reflexivity|split; [reflexivity|left; reflexivity]]].
+      split; [reflexivity|]. cbn [m_ny]. split; [|split; [reflexivity|split; [reflexivity|split; [left; reflexivity | intros HI; exfalso; rewrite HI, Nat.mod_1_r in Nb; apply Nb; reflexivity]]]].
       constructor; [exact (s_sorted _ _ _ _ HS) | exact (s_lt _ _ _ _ HS) | exact (s_cov _ _ _ _ HS) | exact (s_cnt _ _ _ _ HS)].
 Qed.
 
@@ -1316,6 +1421,30 @@ Proof.
   exact (IH gw rd a R (passed s (m_wsnap s)) H' HW').
 Qed.
 
+Lemma skip_invX : forall fuel gw rd a R s,
+  InvC gw rd a R s -> InvW gw rd a s -> InvX gw rd s -> InvX gw rd (snd (skip_retired fuel s)).
+Proof.
+  induction fuel as [|f IH]; intros gw rd a R s H HWw HX; [exact HX|].
+  cbn [skip_retired]. destruct (Nat.ltb_spec (m_rcvd s) (m_send s)) as [Hlt|Hge]; [|exact HX].
+  pose proof (c_info _ _ _ _ _ H (m_rcvd s)) as G.
+  destruct (info_get (m_info s) (m_rcvd s)) as [[w r]|] eqn:Ek; [|lia].
+  destruct G as (_ & Gw & Gr).
+  destruct ((match r with Some _ => true | None => false end) || nth w (m_status s) false) eqn:Eb; [exact HX|].
+  apply orb_false_iff in Eb as [Eb1 Eb2]. destruct r as [x|]; [discriminate|].
+  assert (act s w = false) as Hina by exact Eb2.
+  pose proof (pass_inv gw rd a R s (m_wsnap s) w None H Hlt Ek (or_intror Hina)) as H'.
+  pose proof (pass_invW gw rd a s (m_wsnap s) HWw (c_wf _ _ _ _ _ H) (c_gw _ _ _ _ _ H _ Hlt) (or_introl eq_refl)) as HW'.
+  assert (nb B (gw (m_rcvd s)) < rd (m_rcvd s)) as Hgt.
+  { destruct Gr as [[_ Ga]|(st & Hx & _)]; [|discriminate]. rewrite <- Gw.
+    assert (w < W) as Hw by (rewrite Gw; apply (c_gw _ _ _ _ _ H); exact Hlt).
+    destruct (c_fut _ _ _ _ _ H w Hw) as (_ & _ & _ & F4). rewrite Hina in F4.
+    destruct (Nat.ltb_spec (nb B w) (a w)); [lia | discriminate]. }
+  assert (InvX gw rd (passed s (m_wsnap s))) as HX'.
+  { apply (pass_invX gw rd s (m_wsnap s) HX (c_wf _ _ _ _ _ H) (c_gw _ _ _ _ _ H _ Hlt) (w_len _ _ _ _ HWw)); [|left; split; [reflexivity | exact Hgt]].
+    intros t Ht Hg. pose proof (c_mono _ _ _ _ _ H t (m_rcvd s) Ht Hlt). lia. }
+  exact (IH gw rd a R (passed s (m_wsnap s)) H' HW' HX').
+Qed.
+
 (* the skip loop keeps the snapshot bookkeeping: skipped tasks hold no batch *)
 Lemma skip_invS : forall fuel gw rd a R s y,
   InvC gw rd a R s -> Act gw rd a s -> InvS y gw rd s -> InvS y gw rd (snd (skip_retired fuel s)).
@@ -1341,16 +1470,22 @@ Proof.
 Qed.
 
 (* the first task of the window holds a batch: it is handed out *)
+(* the state right after a batch was handed out, snapshot_every_n_steps = 1: the snapshot was just taken *)
+Definition PostH (gw rd : nat -> nat) (s : ms) : Prop :=
+  c_I c = 1 -> 0 < m_rcvd s /\ sn_workers (m_snapshot s) = m_wsnap s /\ sn_step (m_snapshot s) = m_ny s /\
+               sn_last (m_snapshot s) = gw (m_rcvd s - 1) /\ rd (m_rcvd s - 1) < nb B (gw (m_rcvd s - 1)).
+
 Lemma handout gw rd a R s ws b st0 st rest :
   InvC gw rd a R s -> Rest gw rd R s rest -> Act gw rd a s -> InvS (m_ny s) gw rd s -> m_rcvd s < m_send s ->
   info_get (m_info s) (m_rcvd s) = Some (gw (m_rcvd s), Some (RData b, st0)) ->
   InvW gw rd a s -> ws = m_wsnap s -> (st = None \/ st = Some (wst (gw (m_rcvd s)) (S (rd (m_rcvd s))))) ->
+  InvX gw rd s -> (c_I c = 1 -> st = Some (wst (gw (m_rcvd s)) (S (rd (m_rcvd s))))) ->
   exists rest' sF gw' rd' R', rest = b :: rest' /\
     process_data c (passed s ws) (RData b) (gw (m_rcvd s)) st = (OBatch b, sF) /\
     InvC gw' rd' a R' sF /\ Rest gw' rd' R' sF rest' /\ Act gw' rd' a sF /\ InvS (m_ny sF) gw' rd' sF /\ m_ny sF = S (m_ny s) /\
-    InvW gw' rd' a sF.
+    InvW gw' rd' a sF /\ InvX gw' rd' sF /\ PostH gw' rd' sF.
 Proof.
-  intros H HR HA HS Hkn Hk HWw Ews Hstv. set (k := m_rcvd s) in *. set (u := gw k) in *.
+  intros H HR HA HS Hkn Hk HWw Ews Hstv HX Hst1. set (k := m_rcvd s) in *. set (u := gw k) in *.
   assert (u < W) as Hu by (apply (c_gw _ _ _ _ _ H); exact Hkn).
   pose proof (pass_invW gw rd a s ws HWw (c_wf _ _ _ _ _ H) Hu (or_introl Ews)) as HW3.
   pose proof (c_info _ _ _ _ _ H k) as G. rewrite Hk in G. destruct G as (_ & _ & G).
@@ -1369,12 +1504,20 @@ Proof.
   assert (m_outst (passed s ws) + ndat (m_info (passed s ws)) < W * c_P c) as Hroom.
   { destruct (c_out _ _ _ _ _ H) as [_ O2]. pose proof (ndat_del _ _ _ Hk) as Hd. unfold isdat in Hd. cbn [snd b2n] in Hd.
     unfold passed. cbn [upd_core m_outst m_info]. fold k. lia. }
+  assert (InvX gw rd (passed s (set_nth (m_wsnap s) u (wst u (S (rd k)))))) as HXp.
+  { apply (pass_invX gw rd s _ HX (c_wf _ _ _ _ _ H) Hu (w_len _ _ _ _ HWw)); [|right; split; [reflexivity | unfold u, k in *; lia]].
+    intros t Ht Hg. pose proof (c_mono _ _ _ _ _ H t (m_rcvd s) Ht Hkn) as M. unfold u, k in *. lia. }
+  assert (info_get (m_info (passed s ws)) (m_send s) = None) as Hfresh3.
+  { pose proof (c_info _ _ _ _ _ H3 (m_send s)) as G3. destruct (info_get (m_info (passed s ws)) (m_send s)) as [[? ?]|]; [|reflexivity].
+    change (m_send (passed s ws)) with (m_send s) in G3. change (m_rcvd (passed s ws)) with (S k) in G3. lia. }
   destruct (try_put_iter gw rd a R (passed s ws) rest' H3 HR3 Hroom) as (_ & _ & Hput).
   set (s2 := try_put_index c (passed s ws)) in *.
   assert (exists gw' rd' R', InvC gw' rd' a R' s2 /\ Rest gw' rd' R' s2 rest' /\ Act gw' rd' a s2 /\ InvS (S (m_ny s)) gw' rd' s2 /\
                              m_ny s2 = m_ny s /\ m_rcvd s2 = S k /\ (forall e, In e (m_msnaps s) -> In e (m_msnaps s2)) /\
-                             InvW gw' rd' a s2 /\ gw' k = u /\ rd' k = rd k)
-    as (gw' & rd' & R' & H2 & HR2 & HA2 & HS2 & Eny & Erc & Hsub & HW2 & Egk & Erk).
+                             InvW gw' rd' a s2 /\ gw' k = u /\ rd' k = rd k /\ m_wsnap s2 = ws /\
+                             exists sx, InvX gw' rd' sx /\ m_workers sx = m_workers s2 /\ m_rcvd sx = m_rcvd s2 /\
+                                        m_wsnap sx = set_nth (m_wsnap s) u (wst u (S (rd k))) /\ m_info sx = m_info s2)
+    as (gw' & rd' & R' & H2 & HR2 & HA2 & HS2 & Eny & Erc & Hsub & HW2 & Egk & Erk & Ews2 & sx & HXx & Ex1 & Ex2 & Ex3 & Ex4).
   { destruct Hput as [(w' & R' & j & E & Hw' & Hact & Hj & HAdv & H2 & HR2)|(R' & E & Hall & H2 & HR2)].
     - exists (upd gw (m_send s) w'), (upd rd (m_send s) (dsp a s w')), R'.
       change (m_send (passed s ws)) with (m_send s) in *. change (dsp a (passed s ws) w') with (dsp a s w') in *.
@@ -1387,7 +1530,10 @@ Proof.
         rewrite E. cbn [put_some m_cyc]. exact (c_cyc _ _ _ _ _ H2).
       + split; [exact HS2|]. cbn [put_some m_ny m_rcvd m_msnaps]. split; [reflexivity|]. split; [reflexivity|]. split.
         * intros e He. unfold passed. cbn [upd_core m_msnaps]. destruct (fl_main (upd_core s (S (m_rcvd s)) (info_del (m_info s) (m_rcvd s)) ws)); [apply in_or_app; left|]; exact He.
-        * split; [|rewrite !upd_neq by (fold k; lia); auto].
+        * split; [|rewrite !upd_neq by (fold k; lia); split; [reflexivity|split; [reflexivity|split; [reflexivity|
+            exists (put_some (passed s (set_nth (m_wsnap s) u (wst u (S (rd k))))) w' (m_cyc s2)); split; [|repeat split; reflexivity];
+            apply (put_some_invX gw rd (passed s (set_nth (m_wsnap s) u (wst u (S (rd k))))) w' (m_cyc s2) w' (dsp a s w') HXp);
+              [unfold passed; cbn [upd_core m_rcvd m_send]; lia | unfold passed; cbn [upd_core m_workers]; rewrite (c_wlen _ _ _ _ _ H); exact Hw' | exact Hfresh3]]]]].
           apply (put_some_invW gw rd a (passed s ws) w' (m_cyc s2) w' (dsp a s w') HW3).
           -- unfold passed. cbn [upd_core m_rcvd m_send]. lia.
           -- unfold passed. cbn [upd_core m_workers]. rewrite (c_wlen _ _ _ _ _ H). exact Hw'.
@@ -1398,31 +1544,39 @@ Proof.
         split; [intros _ v Hv Hc; rewrite (Hall v Hv) in Hc; discriminate|]. split; [intros _; exact Hall|].
         exact (proj2 (proj2 HA)).
       + split; [apply put_none_invS; exact HS3|]. cbn [put_none m_ny m_rcvd m_msnaps]. split; [reflexivity|]. split; [reflexivity|].
-        split; [intros e He; exact He|]. split; [apply put_none_invW; exact HW3 | auto]. }
-  destruct (process_data_gen (passed s ws) b u st gw' rd' (c_assert _ _ _ _ _ H2)) as (sF & EF & Hag & Hinf & HSF & EnyF & EwsF & EsnF).
+        split; [intros e He; exact He|]. split; [apply put_none_invW; exact HW3 |]. split; [reflexivity|]. split; [reflexivity|]. split; [reflexivity|].
+        exists (put_none (passed s (set_nth (m_wsnap s) u (wst u (S (rd k))))) (m_cyc s2)). split; [apply put_none_invX; exact HXp | repeat split; reflexivity]. }
+  destruct (process_data_gen (passed s ws) b u st gw' rd' (c_assert _ _ _ _ _ H2)) as (sF & EF & Hag & Hinf & HSF & EnyF & EwsF & EsnF & EpostF).
   { fold s2. rewrite Eny. exact HS2. }
   { fold s2. lia. }
   { fold s2. rewrite Eny, Erc. intros HI Hm. destruct (Hbound HI Hm) as [m Hin]. exists m. replace (S k - 1) with k by lia. apply Hsub, Hin. }
   fold s2 in EF, Hag, Hinf, EnyF, EwsF, EsnF. rewrite Eny in EnyF.
-  exists rest', sF, gw', rd', R'. split; [exact Erest|]. split; [exact EF|]. split; [|split; [|split; [|split; [|split; [exact EnyF|]]]]].
-  5:{ destruct Hag as (A1 & A2 & A3 & A4 & A5 & A6 & A7).
-      apply (final_invW gw' rd' a s2 sF k u st HW2 Erc Egk Hu); auto. rewrite Erk. exact Hstv. }
-  - apply (InvC_ext gw' rd' a R' s2 sF H2 Hag); rewrite ?Hinf; auto. exact (c_wf _ _ _ _ _ H2).
-  - exact (Rest_agree _ _ _ _ _ _ HR2 Hag).
-  - exact (Act_agree _ _ _ _ _ HA2 Hag).
-  - exact HSF.
+  assert (InvW gw' rd' a sF) as HWF.
+  { destruct Hag as (A1 & A2 & A3 & A4 & A5 & A6 & A7).
+    apply (final_invW gw' rd' a s2 sF k u st HW2 Erc Egk Hu); auto. rewrite Erk. exact Hstv. }
+  assert (InvX gw' rd' sF) as HXF.
+  { destruct Hag as (A1 & A2 & A3 & A4 & A5 & A6 & A7).
+    constructor; intros HI; (assert (InvX gw' rd' sF) as HXF; [|first [exact (x_q _ _ _ HXF HI) | exact (x_i _ _ _ HXF HI) | exact (x_s _ _ _ HXF HI)]]);
+    apply (InvX_ext gw' rd' sx sF HXx); try (intros t; rewrite Hinf, Ex4; reflexivity);
+    (split; [rewrite A6; symmetry; exact Ex1 | split; [rewrite EwsF, (Hst1 HI), Ews2, Ews, Ex3; reflexivity | rewrite A2; symmetry; exact Ex2]]). }
+  assert (PostH gw' rd' sF) as HPF.
+  { intros HI. destruct (EpostF HI) as (P1 & P2 & P3). destruct Hag as (A1 & A2 & A3 & A4 & A5 & A6 & A7).
+    rewrite A2, Erc. replace (S k - 1) with k by lia. rewrite Egk, Erk. repeat split; auto; lia. }
+  exists rest', sF, gw', rd', R'. split; [exact Erest|]. split; [exact EF|].
+  split; [apply (InvC_ext gw' rd' a R' s2 sF H2 Hag); rewrite ?Hinf; auto; exact (c_wf _ _ _ _ _ H2)|].
+  split; [exact (Rest_agree _ _ _ _ _ _ HR2 Hag)|]. split; [exact (Act_agree _ _ _ _ _ HA2 Hag)|]. split; [exact HSF|]. split; [exact EnyF|]. auto.
 Qed.
 
 (* a put while the first task of the window stays where it is (after an end-of-shard notice arrived) *)
 Lemma put_nopass gw rd a R s rest :
-  InvC gw rd a R s -> Rest gw rd R s rest -> Act gw rd a s -> InvS (m_ny s) gw rd s -> InvW gw rd a s -> m_outst s + ndat (m_info s) < W * c_P c ->
+  InvC gw rd a R s -> Rest gw rd R s rest -> Act gw rd a s -> InvS (m_ny s) gw rd s -> InvW gw rd a s -> InvX gw rd s -> m_outst s + ndat (m_info s) < W * c_P c ->
   let s2 := try_put_index c s in
-  exists gw' rd' R', InvC gw' rd' a R' s2 /\ Rest gw' rd' R' s2 rest /\ Act gw' rd' a s2 /\ InvS (m_ny s) gw' rd' s2 /\ InvW gw' rd' a s2 /\
+  exists gw' rd' R', InvC gw' rd' a R' s2 /\ Rest gw' rd' R' s2 rest /\ Act gw' rd' a s2 /\ InvS (m_ny s) gw' rd' s2 /\ InvW gw' rd' a s2 /\ InvX gw' rd' s2 /\
     m_rcvd s2 = m_rcvd s /\ m_status s2 = m_status s /\
     ((m_send s2 = S (m_send s) /\ m_outst s2 = S (m_outst s) /\ exists w' c', s2 = put_some s w' c') \/
      (m_send s2 = m_send s /\ m_outst s2 = m_outst s /\ exists c', s2 = put_none s c')).
 Proof.
-  intros H HR HA HS HWw Hroom. cbn zeta.
+  intros H HR HA HS HWw HX Hroom. cbn zeta.
   assert (info_get (m_info s) (m_send s) = None) as Hfresh.
   { pose proof (c_info _ _ _ _ _ H (m_send s)) as G. destruct (info_get (m_info s) (m_send s)) as [[? ?]|]; [lia | reflexivity]. }
   destruct (try_put_iter gw rd a R s rest H HR Hroom) as ((E1 & _) & E2 & Hput).
@@ -1434,7 +1588,7 @@ Proof.
     { destruct (Nat.eq_dec (m_rcvd s) (m_send s)) as [Eq|Ne]; [|pose proof (c_kn _ _ _ _ _ H); lia].
       destruct HA as (_ & A2 & _). rewrite (A2 Eq w' Hw') in Hact. discriminate. }
     assert (w' < length (m_workers s)) as Hwl by (rewrite (c_wlen _ _ _ _ _ H); exact Hw').
-    split; [|split; [rewrite E; apply (put_some_invS (m_ny s) gw rd a R s w' (m_cyc s2) H HS ltac:(lia) Hroom Hw')|split; [rewrite E; apply (put_some_invW gw rd a s w' (m_cyc s2) w' (dsp a s w') HWw (c_kn _ _ _ _ _ H) Hwl Hfresh)|split; [exact E1|split; [exact E2|left; rewrite E; cbn [put_some m_send m_outst]; split; [reflexivity|split; [reflexivity|eauto]]]]]]].
+    split; [|split; [rewrite E; apply (put_some_invS (m_ny s) gw rd a R s w' (m_cyc s2) H HS ltac:(lia) Hroom Hw')|split; [rewrite E; apply (put_some_invW gw rd a s w' (m_cyc s2) w' (dsp a s w') HWw (c_kn _ _ _ _ _ H) Hwl Hfresh)|split; [rewrite E; apply (put_some_invX gw rd s w' (m_cyc s2) w' (dsp a s w') HX (c_kn _ _ _ _ _ H) Hwl Hfresh)|split; [exact E1|split; [exact E2|left; rewrite E; cbn [put_some m_send m_outst]; split; [reflexivity|split; [reflexivity|eauto]]]]]]]].
     rewrite E. unfold Act. cbn [put_some m_rcvd m_send].
     split; [|split; [lia | destruct HA as (_ & _ & A3); lia]].
     intros _ v Hv Hc. change (act (put_some s w' (m_cyc s2)) v) with (act s v) in Hc.
@@ -1445,7 +1599,7 @@ Proof.
       - rewrite wq_put_some_neq by exact Hne. lia. }
     lia.
   - exists gw, rd, R'. split; [exact H2|]. split; [exact HR2|].
-    split; [|split; [rewrite E; apply put_none_invS, HS|split; [rewrite E; apply put_none_invW, HWw|split; [exact E1|split; [exact E2|right; rewrite E; cbn [put_none m_send m_outst]; split; [reflexivity|split; [reflexivity|eauto]]]]]]].
+    split; [|split; [rewrite E; apply put_none_invS, HS|split; [rewrite E; apply put_none_invW, HWw|split; [rewrite E; apply put_none_invX, HX|split; [exact E1|split; [exact E2|right; rewrite E; cbn [put_none m_send m_outst]; split; [reflexivity|split; [reflexivity|eauto]]]]]]]].
     rewrite E. unfold Act. change (act (put_none s (m_cyc s2))) with (act s).
     split; [intros _ v Hv Hc; rewrite (Hall v Hv) in Hc; discriminate|]. split; [intros _; exact Hall|]. exact (proj2 (proj2 HA)).
 Qed.
@@ -1510,23 +1664,24 @@ Proof. intros (E1 & E2 & E3 & E4 & _ & _ & _ & E8). unfold psi. rewrite E1, E3, 
 
 (* _next_data for an iterable dataset, under every arrival schedule *)
 Lemma next_data_iter : forall fuel gw rd a R s rest sched,
-  InvC gw rd a R s -> Rest gw rd R s rest -> Act gw rd a s -> InvS (m_ny s) gw rd s -> InvW gw rd a s -> psi s < fuel ->
+  InvC gw rd a R s -> Rest gw rd R s rest -> Act gw rd a s -> InvS (m_ny s) gw rd s -> InvW gw rd a s -> InvX gw rd s -> psi s < fuel ->
   match rest with
   | [] => exists s' sched', next_data fuel c s sched = (OStop, s', sched')
   | b :: rest' => exists s' sched' gw' rd' a' R', next_data fuel c s sched = (OBatch b, s', sched') /\
                     InvC gw' rd' a' R' s' /\ Rest gw' rd' R' s' rest' /\ Act gw' rd' a' s' /\ InvS (m_ny s') gw' rd' s' /\
-                    m_ny s' = S (m_ny s) /\ InvW gw' rd' a' s'
+                    m_ny s' = S (m_ny s) /\ InvW gw' rd' a' s' /\ InvX gw' rd' s' /\ PostH gw' rd' s'
   end.
 Proof.
-  induction fuel as [|f IH]; intros gw rd a R s rest sched H HR HA HS HWw Hpsi; [lia|].
+  induction fuel as [|f IH]; intros gw rd a R s rest sched H HR HA HS HWw HX Hpsi; [lia|].
   cbn [next_data].
   pose proof (skip_spec (S (m_send s)) gw rd a R s rest H HR HA ltac:(lia)) as Hskip.
   pose proof (skip_invS (S (m_send s)) gw rd a R s (m_ny s) H HA HS) as HS1.
   pose proof (skip_invW (S (m_send s)) gw rd a R s H HWw) as HW1.
-  destruct (skip_retired (S (m_send s)) s) as [found s1]. cbn [snd] in HS1, HW1.
+  pose proof (skip_invX (S (m_send s)) gw rd a R s H HWw HX) as HX1.
+  destruct (skip_retired (S (m_send s)) s) as [found s1]. cbn [snd] in HS1, HW1, HX1.
   destruct Hskip as (H1 & HR1 & HA1 & Hfr & Hf). pose proof (psi_frame _ _ Hfr) as Hpsi1.
   assert (m_ny s1 = m_ny s) as Eny1 by (destruct Hfr as (_ & _ & _ & _ & E & _); exact E). rewrite <- Eny1 in HS1 |- *.
-  clear H HR HA HS HWw Hfr. destruct found; cbn [negb].
+  clear H HR HA HS HWw HX Hfr. destruct found; cbn [negb].
   2:{ (* the window is empty: every worker has retired, nothing is left *)
     assert (rest = []) as ->.
     { unfold Rest in HR1. rewrite Hf in HR1. unfold wdat in HR1. rewrite Nat.sub_diag in HR1. cbn [seq flat_map app] in HR1.
@@ -1541,8 +1696,9 @@ Proof.
     pose proof (w_i _ _ _ _ HW1 _ _ _ _ Ek) as Hstv.
     destruct (ans_cases w (rd (m_rcvd s1))) as [(b & E1 & E2 & E3)|(E1 & E2 & E3)]; rewrite E1 in Gres; subst res.
     + subst w.
-      destruct (handout gw rd a R s1 (m_wsnap s1) b st st rest H1 HR1 HA1 HS1 Hlt Ek HW1 eq_refl Hstv) as (rest' & sF & gw' & rd' & R' & -> & EF & HF & HRF & HAF & HSF & EnF & HWF).
-      unfold passed in EF. rewrite EF. eexists _, _, gw', rd', a, R'. split; [reflexivity|]. auto 8.
+      destruct (handout gw rd a R s1 (m_wsnap s1) b st st rest H1 HR1 HA1 HS1 Hlt Ek HW1 eq_refl Hstv HX1 (fun HI => x_i _ _ _ HX1 HI _ _ _ _ Ek))
+        as (rest' & sF & gw' & rd' & R' & -> & EF & HF & HRF & HAF & HSF & EnF & HWF & HXF & HPF).
+      unfold passed in EF. rewrite EF. eexists _, _, gw', rd', a, R'. split; [reflexivity|]. auto 12.
     + subst w. set (ws := match st with Some x => set_nth (m_wsnap s1) (gw (m_rcvd s1)) x | None => m_wsnap s1 end).
       assert (act s1 (gw (m_rcvd s1)) = false) as Hina.
       { assert (gw (m_rcvd s1) < W) as Hw by (apply (c_gw _ _ _ _ _ H1); exact Hlt).
@@ -1558,7 +1714,13 @@ Proof.
       assert (InvW gw rd a (passed s1 ws)) as HW2.
       { apply (pass_invW gw rd a s1 ws HW1 (c_wf _ _ _ _ _ H1) (c_gw _ _ _ _ _ H1 _ Hlt)).
         unfold ws. destruct Hstv as [->| ->]; [left | right]; reflexivity. }
-      apply (IH gw rd a R (passed s1 ws) rest sched H2 HR2 HA2 HS2 HW2).
+      assert (InvX gw rd (passed s1 ws)) as HX2.
+      { constructor; intros HI; (assert (InvX gw rd (passed s1 ws)) as HXa; [|first [exact (x_q _ _ _ HXa HI) | exact (x_i _ _ _ HXa HI) | exact (x_s _ _ _ HXa HI)]]);
+        (apply (pass_invX gw rd s1 ws HX1 (c_wf _ _ _ _ _ H1) (c_gw _ _ _ _ _ H1 _ Hlt) (w_len _ _ _ _ HW1));
+         [intros t Ht Hg; pose proof (c_mono _ _ _ _ _ H1 t (m_rcvd s1) Ht Hlt); lia
+         | right; split; [unfold ws; rewrite (x_i _ _ _ HX1 HI _ _ _ _ Ek); reflexivity
+                          | destruct (c_fut _ _ _ _ _ H1 _ (c_gw _ _ _ _ _ H1 _ Hlt)) as (_ & _ & F3 & _); lia]]). }
+      apply (IH gw rd a R (passed s1 ws) rest sched H2 HR2 HA2 HS2 HW2 HX2).
       unfold psi, passed in *. cbn [upd_core m_send m_rcvd m_outst m_status]. lia.
   - (* the first task is still outstanding: wait for an arrival *)
     destruct Hr as [Hr|Hact]; [congruence|].
@@ -1579,6 +1741,8 @@ Proof.
     pose proof (arrive_invS (m_ny s1) gw rd a R s1 w2 tk q' k2 r2 st2 H1 HS1 Hw2 Eq Hq2k Hgi Hri Hr2 Hei) as HSv. fold idx in HSv.
     pose proof (arrive_invW gw rd a s1 w2 tk q' HW1 (c_wf _ _ _ _ _ H1) ltac:(rewrite (c_wlen _ _ _ _ _ H1); exact Hw2) Hw2 (c_a0 _ _ _ _ _ H1 w2 Hw2) Hri) as HWv.
     rewrite Efetch in HWv. fold idx a' in HWv.
+    pose proof (arrive_invX gw rd a s1 w2 tk q' HX1 HW1 (c_wf _ _ _ _ _ H1) ltac:(rewrite (c_wlen _ _ _ _ _ H1); exact Hw2) Hw2 (c_a0 _ _ _ _ _ H1 w2 Hw2) Hri Eq) as HXv.
+    rewrite Efetch in HXv. specialize (HXv Hq2k). fold idx in HXv.
     destruct (ans_cases w2 (a w2)) as [(b2 & E1 & E2 & E3)|(E1 & E2 & E3)]; rewrite E1 in Hr2; subst r2; cbn [m_rcvd].
     + (* a batch arrives *)
       set (sv := arrived s1 w2 k2 idx (RData b2) st2) in *.
@@ -1591,15 +1755,15 @@ Proof.
         { unfold sv, arrived. cbn [m_info m_rcvd]. rewrite <- Eidx. rewrite info_get_set by exact (c_wf _ _ _ _ _ H1).
           rewrite Nat.eqb_refl, Hgi. reflexivity. }
         pose proof (w_i _ _ _ _ HWv _ _ _ _ Hkv) as Hst2.
-        destruct (handout gw rd a' R sv (m_wsnap s1) b2 st2 st2 rest Hv HRv HAv HSv Hlt Hkv HWv eq_refl Hst2)
-          as (rest' & sF & gw' & rd' & R' & -> & EF & HF & HRF & HAF & HSF & EnF & HWF).
+        destruct (handout gw rd a' R sv (m_wsnap s1) b2 st2 st2 rest Hv HRv HAv HSv Hlt Hkv HWv eq_refl Hst2 HXv (fun HI => x_i _ _ _ HXv HI _ _ _ _ Hkv))
+          as (rest' & sF & gw' & rd' & R' & -> & EF & HF & HRF & HAF & HSF & EnF & HWF & HXF & HPF).
         match goal with |- context [process_data c ?S _ _ _] => assert (S = passed sv (m_wsnap s1)) as Es3 end.
         { unfold passed, sv, arrived. cbn [m_rcvd m_info upd_core m_send m_outst m_status m_cyc m_ny m_siy m_samp m_msnaps m_last m_wsnap
             m_snapshot m_finished m_workers m_assert isstop]. rewrite <- Eidx. rewrite info_del_set by exact (c_wf _ _ _ _ _ H1). reflexivity. }
         rewrite Es3. change (m_rcvd sv) with (m_rcvd s1) in EF. rewrite <- Eidx, Hgi in EF. rewrite EF.
-        eexists _, _, gw', rd', a', R'. split; [reflexivity|]. auto 8.
+        eexists _, _, gw', rd', a', R'. split; [reflexivity|]. auto 12.
       * (* out of order: buffered, keep waiting *)
-        apply (IH gw rd a' R sv rest sched' Hv HRv HAv HSv HWv).
+        apply (IH gw rd a' R sv rest sched' Hv HRv HAv HSv HWv HXv).
         unfold psi, sv, arrived in *. cbn [m_send m_rcvd m_outst m_status isstop]. lia.
     + (* an end-of-shard notice arrives: the worker retires, one more task is put *)
       set (sv := arrived s1 w2 k2 idx RStop st2) in *.
@@ -1639,6 +1803,13 @@ Proof.
         { apply (pass_invW gw rd a' sv ws HWv (c_wf _ _ _ _ _ Hv) (c_gw _ _ _ _ _ Hv _ Hlt)).
           pose proof (w_i _ _ _ _ HWv _ _ _ _ Hkv) as Hst2. change (m_rcvd sv) with (m_rcvd s1) in Hst2 |- *. rewrite <- Eidx in Hst2 |- *. rewrite Hgi.
           unfold ws. change (m_wsnap sv) with (m_wsnap s1). destruct Hst2 as [->| ->]; [left | right]; reflexivity. }
+        assert (InvX gw rd (passed sv ws)) as HXp.
+        { constructor; intros HI; (assert (InvX gw rd (passed sv ws)) as HXa; [|first [exact (x_q _ _ _ HXa HI) | exact (x_i _ _ _ HXa HI) | exact (x_s _ _ _ HXa HI)]]);
+          (apply (pass_invX gw rd sv ws HXv (c_wf _ _ _ _ _ Hv) (c_gw _ _ _ _ _ Hv _ Hlt) (w_len _ _ _ _ HWv));
+           [intros t Ht Hg; pose proof (c_mono _ _ _ _ _ Hv t (m_rcvd sv) Ht Hlt); lia
+           | right; change (m_rcvd sv) with (m_rcvd s1); rewrite <- Eidx, Hgi, Hri; split;
+             [unfold ws; change (m_wsnap sv) with (m_wsnap s1); pose proof (x_i _ _ _ HXv HI _ _ _ _ Hkv) as Hx; change (m_rcvd sv) with (m_rcvd s1) in Hx; rewrite <- Eidx, Hri in Hx; rewrite Hx; reflexivity
+              | destruct (c_fut _ _ _ _ _ H1 w2 Hw2) as (_ & F2' & _); rewrite Hd2 in F2'; symmetry in F2'; apply Nat.ltb_ge in F2'; lia]]). }
         set (sp := passed sv ws) in *.
         assert (m_outst sp + ndat (m_info sp) < W * c_P c) as Hroomp.
         { pose proof (ndat_del _ _ _ Hkv) as Hd. unfold isdat in Hd. cbn [snd b2n] in Hd. unfold sp, passed. cbn [upd_core m_outst m_info].
@@ -1646,8 +1817,8 @@ Proof.
         assert (m_outst sp < W * c_P c) as Houtp by lia.
         pose proof (try_put_eq sp Houtp (c_assert _ _ _ _ _ Hp)) as Eputp.
         change (m_status sp) with (m_status sv) in Eputp. change (m_cyc sp) with (m_cyc sv) in Eputp.
-        destruct (put_nopass gw rd a' R sp rest Hp HRp HAp HSp HWp Hroomp) as (gw' & rd' & R' & H2 & HR2 & HA2 & HS2 & HW2 & Er2 & Es2 & Hcase).
-        rewrite Eput'. rewrite Eputp in H2, HR2, HA2, HS2, HW2, Er2, Es2, Hcase.
+        destruct (put_nopass gw rd a' R sp rest Hp HRp HAp HSp HWp HXp Hroomp) as (gw' & rd' & R' & H2 & HR2 & HA2 & HS2 & HW2 & HX2 & Er2 & Es2 & Hcase).
+        rewrite Eput'. rewrite Eputp in H2, HR2, HA2, HS2, HW2, HX2, Er2, Es2, Hcase.
         assert (info_del (info_set (m_info s1) idx (w2, Some (RStop, st2))) idx = info_del (m_info s1) idx) as Hdl
           by (apply info_del_set; exact (c_wf _ _ _ _ _ H1)).
         destruct (find_worker W W (m_status sv) (m_cyc sv)) as [[w'|] c'].
@@ -1662,7 +1833,8 @@ Proof.
            assert (agreeS (put_some sp w' c') sA) as HagS by (split; [exact Hag | split; reflexivity]).
            assert (InvS (m_ny sA) gw' rd' sA) as HSA by (apply (InvS_ext (m_ny s1) gw' rd' (put_some sp w' c') sA HS2 HagS); rewrite Hinf; reflexivity).
            assert (InvW gw' rd' a' sA) as HWA by (apply (InvW_ext gw' rd' a' (put_some sp w' c') sA HW2); [unfold agreeW; repeat split; reflexivity | intros; rewrite Hinf; reflexivity]).
-           apply (IH gw' rd' a' R' sA rest sched' HA' (Rest_agree _ _ _ _ _ _ HR2 Hag) (Act_agree _ _ _ _ _ HA2 Hag) HSA HWA).
+           assert (InvX gw' rd' sA) as HXA by (apply (InvX_ext gw' rd' (put_some sp w' c') sA HX2); [unfold agreeX; repeat split; reflexivity | intros; rewrite Hinf; reflexivity]).
+           apply (IH gw' rd' a' R' sA rest sched' HA' (Rest_agree _ _ _ _ _ _ HR2 Hag) (Act_agree _ _ _ _ _ HA2 Hag) HSA HWA HXA).
            unfold psi in *. unfold sA. cbn [upd_core put_some m_send m_rcvd m_outst m_status]. unfold s'. cbn [m_send m_outst m_status m_rcvd].
            unfold sv, arrived in Hnact. cbn [m_status isstop] in Hnact. lia.
         -- cbn [put_none m_rcvd]. change (m_rcvd s') with (m_rcvd s1). replace (negb (idx =? m_rcvd s1)) with false by (symmetry; apply negb_false_iff, Nat.eqb_eq; exact Eidx).
@@ -1675,13 +1847,14 @@ Proof.
            assert (agreeS (put_none sp c') sA) as HagS by (split; [exact Hag | split; reflexivity]).
            assert (InvS (m_ny sA) gw' rd' sA) as HSA by (apply (InvS_ext (m_ny s1) gw' rd' (put_none sp c') sA HS2 HagS); rewrite Hinf; reflexivity).
            assert (InvW gw' rd' a' sA) as HWA by (apply (InvW_ext gw' rd' a' (put_none sp c') sA HW2); [unfold agreeW; repeat split; reflexivity | intros; rewrite Hinf; reflexivity]).
-           apply (IH gw' rd' a' R' sA rest sched' HA' (Rest_agree _ _ _ _ _ _ HR2 Hag) (Act_agree _ _ _ _ _ HA2 Hag) HSA HWA).
+           assert (InvX gw' rd' sA) as HXA by (apply (InvX_ext gw' rd' (put_none sp c') sA HX2); [unfold agreeX; repeat split; reflexivity | intros; rewrite Hinf; reflexivity]).
+           apply (IH gw' rd' a' R' sA rest sched' HA' (Rest_agree _ _ _ _ _ _ HR2 Hag) (Act_agree _ _ _ _ _ HA2 Hag) HSA HWA HXA).
            unfold psi in *. unfold sA. cbn [upd_core put_none m_send m_rcvd m_outst m_status]. unfold s'. cbn [m_send m_outst m_status m_rcvd].
            unfold sv, arrived in Hnact. cbn [m_status isstop] in Hnact. lia.
       * (* out of order: the notice is buffered *)
         pose proof (try_put_eq sv Houtv (c_assert _ _ _ _ _ Hv)) as Eputv.
-        destruct (put_nopass gw rd a' R sv rest Hv HRv HAv HSv HWv Hroomv) as (gw' & rd' & R' & H2 & HR2 & HA2 & HS2 & HW2 & Er2 & Es2 & Hcase).
-        rewrite Eput'. rewrite Eputv in H2, HR2, HA2, HS2, HW2, Er2, Es2, Hcase.
+        destruct (put_nopass gw rd a' R sv rest Hv HRv HAv HSv HWv HXv Hroomv) as (gw' & rd' & R' & H2 & HR2 & HA2 & HS2 & HW2 & HX2 & Er2 & Es2 & Hcase).
+        rewrite Eput'. rewrite Eputv in H2, HR2, HA2, HS2, HW2, HX2, Er2, Es2, Hcase.
         destruct (find_worker W W (m_status sv) (m_cyc sv)) as [[w'|] c'].
         -- cbn [put_some m_rcvd]. change (m_rcvd s') with (m_rcvd s1). replace (negb (idx =? m_rcvd s1)) with true by (symmetry; apply negb_true_iff, Nat.eqb_neq; exact Nidx).
            match goal with |- context [next_data f c ?S sched'] => set (sA := S) end.
@@ -1693,7 +1866,8 @@ Proof.
            assert (agreeS (put_some sv w' c') sA) as HagS by (split; [exact Hag | split; reflexivity]).
            assert (InvS (m_ny sA) gw' rd' sA) as HSA by (apply (InvS_ext (m_ny s1) gw' rd' (put_some sv w' c') sA HS2 HagS); exact X3).
            assert (InvW gw' rd' a' sA) as HWA by (apply (InvW_ext gw' rd' a' (put_some sv w' c') sA HW2); [unfold agreeW; repeat split; reflexivity | exact X2]).
-           apply (IH gw' rd' a' R' sA rest sched' HA' (Rest_agree _ _ _ _ _ _ HR2 Hag) (Act_agree _ _ _ _ _ HA2 Hag) HSA HWA).
+           assert (InvX gw' rd' sA) as HXA by (apply (InvX_ext gw' rd' (put_some sv w' c') sA HX2); [unfold agreeX; repeat split; reflexivity | exact X2]).
+           apply (IH gw' rd' a' R' sA rest sched' HA' (Rest_agree _ _ _ _ _ _ HR2 Hag) (Act_agree _ _ _ _ _ HA2 Hag) HSA HWA HXA).
            unfold psi in *. unfold sA. cbn [upd_core put_some m_send m_rcvd m_outst m_status]. unfold s'. cbn [m_send m_outst m_status].
            unfold sv, arrived in Hnact. cbn [m_status isstop] in Hnact. lia.
         -- cbn [put_none m_rcvd]. change (m_rcvd s') with (m_rcvd s1). replace (negb (idx =? m_rcvd s1)) with true by (symmetry; apply negb_true_iff, Nat.eqb_neq; exact Nidx).
@@ -1704,37 +1878,38 @@ Proof.
            assert (agreeS (put_none sv c') sA) as HagS by (split; [exact Hag | split; reflexivity]).
            assert (InvS (m_ny sA) gw' rd' sA) as HSA by (apply (InvS_ext (m_ny s1) gw' rd' (put_none sv c') sA HS2 HagS); reflexivity).
            assert (InvW gw' rd' a' sA) as HWA by (apply (InvW_ext gw' rd' a' (put_none sv c') sA HW2); [unfold agreeW; repeat split; reflexivity | reflexivity]).
-           apply (IH gw' rd' a' R' sA rest sched' HA' (Rest_agree _ _ _ _ _ _ HR2 Hag) (Act_agree _ _ _ _ _ HA2 Hag) HSA HWA).
+           assert (InvX gw' rd' sA) as HXA by (apply (InvX_ext gw' rd' (put_none sv c') sA HX2); [unfold agreeX; repeat split; reflexivity | reflexivity]).
+           apply (IH gw' rd' a' R' sA rest sched' HA' (Rest_agree _ _ _ _ _ _ HR2 Hag) (Act_agree _ _ _ _ _ HA2 Hag) HSA HWA HXA).
            unfold psi in *. unfold sA. cbn [upd_core put_none m_send m_rcvd m_outst m_status]. unfold s'. cbn [m_send m_outst m_status].
            unfold sv, arrived in Hnact. cbn [m_status isstop] in Hnact. lia.
 Qed.
 
 (* __next__ *)
 Lemma sdl_next_iter gw rd a R s rest sched :
-  InvC gw rd a R s -> Rest gw rd R s rest -> Act gw rd a s -> InvS (m_ny s) gw rd s -> InvW gw rd a s ->
+  InvC gw rd a R s -> Rest gw rd R s rest -> Act gw rd a s -> InvS (m_ny s) gw rd s -> InvW gw rd a s -> InvX gw rd s ->
   match rest with
   | [] => exists s' sched', sdl_next c s sched = (OStop, s', sched')
   | b :: rest' => exists s' sched' gw' rd' a' R', sdl_next c s sched = (OBatch b, s', sched') /\
                     InvC gw' rd' a' R' s' /\ Rest gw' rd' R' s' rest' /\ Act gw' rd' a' s' /\ InvS (m_ny s') gw' rd' s' /\
-                    m_ny s' = S (m_ny s) /\ InvW gw' rd' a' s'
+                    m_ny s' = S (m_ny s) /\ InvW gw' rd' a' s' /\ InvX gw' rd' s' /\ PostH gw' rd' s'
   end.
 Proof.
-  intros H HR HA HS HWw. unfold sdl_next. apply (next_data_iter (FUEL c s) gw rd a R s rest sched H HR HA HS HWw).
+  intros H HR HA HS HWw HX. unfold sdl_next. apply (next_data_iter (FUEL c s) gw rd a R s rest sched H HR HA HS HWw HX).
   unfold psi, FUEL. destruct (c_out _ _ _ _ _ H) as [O1 _]. rewrite O1. fold (qsum (m_workers s)).
   pose proof (nact_le (m_status s)) as Hn. rewrite (c_slen _ _ _ _ _ H) in Hn. destruct HA as (_ & _ & A3).
   assert (W <= W * c_P c) by nia. lia.
 Qed.
 
 Lemma outcomes_iter : forall rest gw rd a R s sched,
-  InvC gw rd a R s -> Rest gw rd R s rest -> Act gw rd a s -> InvS (m_ny s) gw rd s -> InvW gw rd a s ->
+  InvC gw rd a R s -> Rest gw rd R s rest -> Act gw rd a s -> InvS (m_ny s) gw rd s -> InvW gw rd a s -> InvX gw rd s ->
   outcomes c (S (length rest)) s sched = map OBatch rest ++ [OStop].
 Proof.
-  induction rest as [|b rest IH]; intros gw rd a R s sched H HR HA HS HWw.
-  - destruct (sdl_next_iter gw rd a R s [] sched H HR HA HS HWw) as (s' & sched' & E). cbn [outcomes length]. rewrite E. reflexivity.
-  - destruct (sdl_next_iter gw rd a R s (b :: rest) sched H HR HA HS HWw) as (s' & sched' & gw' & rd' & a' & R' & E & H' & HR' & HA' & HS' & _ & HW').
+  induction rest as [|b rest IH]; intros gw rd a R s sched H HR HA HS HWw HX.
+  - destruct (sdl_next_iter gw rd a R s [] sched H HR HA HS HWw HX) as (s' & sched' & E). cbn [outcomes length]. rewrite E. reflexivity.
+  - destruct (sdl_next_iter gw rd a R s (b :: rest) sched H HR HA HS HWw HX) as (s' & sched' & gw' & rd' & a' & R' & E & H' & HR' & HA' & HS' & _ & HW' & HX' & _).
     cbn [length]. change (outcomes c (S (S (length rest))) s sched)
       with (let '(o, s', sched') := sdl_next c s sched in match o with OStop => [OStop] | _ => o :: outcomes c (S (length rest)) s' sched' end).
-    rewrite E. cbn [map app]. f_equal. exact (IH gw' rd' a' R' s' sched' H' HR' HA' HS' HW').
+    rewrite E. cbn [map app]. f_equal. exact (IH gw' rd' a' R' s' sched' H' HR' HA' HS' HW' HX').
 Qed.
 
 (* ------------------------------------------------------------------ *)
@@ -1800,6 +1975,15 @@ Proof.
   - intros w Hw. exists (a0 w). rewrite wst_a0, E4. split; [exact (E3 w Hw) | left; reflexivity].
 Qed.
 
+Lemma blank_invX workers ny0 siy0 samp0 last0 wsnap snap : entries_ok workers wsnap snap -> workers_ok workers ->
+  InvX g0 g0 (init0 workers ny0 siy0 samp0 last0 wsnap snap).
+Proof.
+  intros (E1 & E2 & E3 & E4) [Hlen Hws]. constructor; intros HI; unfold init0.
+  - intros w Hw tk Hin. unfold wq in Hin. cbn [m_workers] in Hin. destruct (Hws w Hw) as (Q & _). rewrite Q in Hin. contradiction.
+  - intros t w r st Hi. discriminate.
+  - cbn [m_wsnap m_rcvd]. intros w Hw. exists (a0 w). rewrite wst_a0. split; [exact (E3 w Hw)|]. split; [intros t Ht; lia | left; reflexivity].
+Qed.
+
 Lemma blank_inv workers ny0 siy0 samp0 last0 wsnap snap : workers_ok workers ->
   let s0 := init0 workers ny0 siy0 samp0 last0 wsnap snap in
   InvC g0 g0 a0 0 s0 /\ Rest g0 g0 0 s0 (refsuf W B 0 cyc0) /\ InvS ny0 g0 g0 s0.
@@ -1837,13 +2021,13 @@ Qed.
 Lemma init_puts : forall j i gw rd R s y,
   i + j <= W * c_P c -> InvC gw rd a0 R s -> Rest gw rd R s (refsuf W B 0 cyc0) ->
   m_send s = i -> m_rcvd s = 0 -> m_outst s = i -> ndat (m_info s) = 0 -> m_status s = repeat true W -> R * W + m_cyc s = i + cyc0 ->
-  (1 <= i -> gw 0 = cyc0 /\ rd 0 = 0) -> InvS y gw rd s -> m_ny s = y -> InvW gw rd a0 s ->
+  (1 <= i -> gw 0 = cyc0 /\ rd 0 = 0) -> InvS y gw rd s -> m_ny s = y -> InvW gw rd a0 s -> InvX gw rd s ->
   exists gw' rd' R', let s' := iter_n (try_put_index c) j s in
-    InvC gw' rd' a0 R' s' /\ Rest gw' rd' R' s' (refsuf W B 0 cyc0) /\ InvS y gw' rd' s' /\ InvW gw' rd' a0 s' /\ m_ny s' = y /\ m_send s' = i + j /\ m_rcvd s' = 0 /\
+    InvC gw' rd' a0 R' s' /\ Rest gw' rd' R' s' (refsuf W B 0 cyc0) /\ InvS y gw' rd' s' /\ InvW gw' rd' a0 s' /\ InvX gw' rd' s' /\ m_ny s' = y /\ m_send s' = i + j /\ m_rcvd s' = 0 /\
     m_status s' = repeat true W /\ R' * W + m_cyc s' = i + j + cyc0 /\ (1 <= i + j -> gw' 0 = cyc0 /\ rd' 0 = 0).
 Proof.
-  induction j as [|j IH]; intros i gw rd R s y Hij H HR Es Er Eo En Est ERc H0 HS Eny HWw.
-  - exists gw, rd, R. cbn [iter_n]. rewrite Nat.add_0_r. auto 14.
+  induction j as [|j IH]; intros i gw rd R s y Hij H HR Es Er Eo En Est ERc H0 HS Eny HWw HX.
+  - exists gw, rd, R. cbn [iter_n]. rewrite Nat.add_0_r. auto 16.
   - cbn [iter_n].
     destruct (try_put_iter gw rd a0 R s (refsuf W B 0 cyc0) H HR ltac:(lia)) as ((E1 & _) & E2 & Hput).
     set (s2 := try_put_index c s) in *.
@@ -1865,6 +2049,9 @@ Proof.
     assert (InvW (upd gw (m_send s) w') (upd rd (m_send s) (dsp a0 s w')) a0 s2) as HW2.
     { rewrite E. apply (put_some_invW gw rd a0 s w' (m_cyc s2) w' (dsp a0 s w') HWw (c_kn _ _ _ _ _ H) Hwl).
       pose proof (c_info _ _ _ _ _ H (m_send s)) as G. destruct (info_get (m_info s) (m_send s)) as [[? ?]|]; [lia | reflexivity]. }
+    assert (InvX (upd gw (m_send s) w') (upd rd (m_send s) (dsp a0 s w')) s2) as HX2.
+    { rewrite E. apply (put_some_invX gw rd s w' (m_cyc s2) w' (dsp a0 s w') HX (c_kn _ _ _ _ _ H) Hwl).
+      pose proof (c_info _ _ _ _ _ H (m_send s)) as G. destruct (info_get (m_info s) (m_send s)) as [[? ?]|]; [lia | reflexivity]. }
     replace (i + S j) with (S i + j) by lia.
     apply (IH (S i) (upd gw (m_send s) w') (upd rd (m_send s) (dsp a0 s w')) R' s2 y); auto; try lia.
     intros _. rewrite Es. destruct (Nat.eq_dec i 0) as [->|Hi].
@@ -1879,14 +2066,15 @@ Qed.
 Lemma start_iter workers ny0 siy0 samp0 last0 wsnap snap : workers_ok workers -> entries_ok workers wsnap snap ->
   let s := iter_n (try_put_index c) (c_P c * W) (init0 workers ny0 siy0 samp0 last0 wsnap snap) in
   exists gw rd R, InvC gw rd a0 R s /\ Rest gw rd R s (refsuf W B 0 cyc0) /\ Act gw rd a0 s /\ InvS (m_ny s) gw rd s /\ m_ny s = ny0 /\
-                  InvW gw rd a0 s.
+                  InvW gw rd a0 s /\ InvX gw rd s.
 Proof.
-  intros Hok Hent. cbn zeta. pose proof (blank_invW workers ny0 siy0 samp0 last0 wsnap snap Hent) as HW0. destruct (blank_inv workers ny0 siy0 samp0 last0 wsnap snap Hok) as (H0 & HR0 & HS0).
+  intros Hok Hent. cbn zeta. pose proof (blank_invW workers ny0 siy0 samp0 last0 wsnap snap Hent) as HW0.
+  pose proof (blank_invX workers ny0 siy0 samp0 last0 wsnap snap Hent Hok) as HX0. destruct (blank_inv workers ny0 siy0 samp0 last0 wsnap snap Hok) as (H0 & HR0 & HS0).
   set (s0 := init0 workers ny0 siy0 samp0 last0 wsnap snap) in *.
-  destruct (init_puts (c_P c * W) 0 g0 g0 0 s0 ny0 ltac:(lia) H0 HR0 eq_refl eq_refl eq_refl eq_refl eq_refl ltac:(cbn; lia) ltac:(lia) HS0 eq_refl HW0)
-    as (gw & rd & R & H & HR & HS & HWw & Eny & Es & Er & Est & ERc & Hz).
+  destruct (init_puts (c_P c * W) 0 g0 g0 0 s0 ny0 ltac:(lia) H0 HR0 eq_refl eq_refl eq_refl eq_refl eq_refl ltac:(cbn; lia) ltac:(lia) HS0 eq_refl HW0 HX0)
+    as (gw & rd & R & H & HR & HS & HWw & HX & Eny & Es & Er & Est & ERc & Hz).
   cbn zeta in *. set (s := iter_n (try_put_index c) (c_P c * W) s0) in *.
-  exists gw, rd, R. split; [exact H|]. split; [exact HR|]. split; [|split; [rewrite Eny; exact HS | split; [exact Eny | exact HWw]]].
+  exists gw, rd, R. split; [exact H|]. split; [exact HR|]. split; [|split; [rewrite Eny; exact HS | split; [exact Eny | split; [exact HWw | exact HX]]]].
   assert (0 < c_P c * W) as Hpos by nia. destruct (Hz ltac:(lia)) as [Hg Hr].
   pose proof (c_cyc _ _ _ _ _ H) as Hcyc.
   unfold Act. rewrite Er, Es. split; [|split; [lia | nia]].
@@ -1900,18 +2088,22 @@ Qed.
 
 (* k further batches (the replay loop of __init__; any k consecutive __next__ calls) *)
 Lemma replay_iter : forall k gw rd a R s rest sched, k <= length rest ->
-  InvC gw rd a R s -> Rest gw rd R s rest -> Act gw rd a s -> InvS (m_ny s) gw rd s -> InvW gw rd a s ->
+  InvC gw rd a R s -> Rest gw rd R s rest -> Act gw rd a s -> InvS (m_ny s) gw rd s -> InvW gw rd a s -> InvX gw rd s ->
   exists s' sched' gw' rd' a' R', replay c k s sched = (s', sched') /\
     InvC gw' rd' a' R' s' /\ Rest gw' rd' R' s' (skipn k rest) /\ Act gw' rd' a' s' /\ InvS (m_ny s') gw' rd' s' /\ m_ny s' = m_ny s + k /\
-    InvW gw' rd' a' s'.
+    InvW gw' rd' a' s' /\ InvX gw' rd' s' /\ (0 < k -> PostH gw' rd' s').
 Proof.
-  induction k as [|k IH]; intros gw rd a R s rest sched Hk H HR HA HS HWw.
-  - exists s, sched, gw, rd, a, R. cbn [replay skipn]. rewrite Nat.add_0_r. auto 12.
+  induction k as [|k IH]; intros gw rd a R s rest sched Hk H HR HA HS HWw HX.
+  - exists s, sched, gw, rd, a, R. cbn [replay skipn]. rewrite Nat.add_0_r.
+    split; [reflexivity|]. split; [exact H|]. split; [exact HR|]. split; [exact HA|]. split; [exact HS|]. split; [reflexivity|]. split; [exact HWw|]. split; [exact HX|]. intros Hlt; lia.
   - destruct rest as [|b rest]; [cbn in Hk; lia|].
-    destruct (sdl_next_iter gw rd a R s (b :: rest) sched H HR HA HS HWw) as (s1 & sched1 & gw1 & rd1 & a1 & R1 & E & H1 & HR1 & HA1 & HS1 & Eny & HW1).
-    destruct (IH gw1 rd1 a1 R1 s1 rest sched1 ltac:(cbn in Hk; lia) H1 HR1 HA1 HS1 HW1) as (s' & sched' & gw' & rd' & a' & R' & E' & X).
-    exists s', sched', gw', rd', a', R'. cbn [replay]. rewrite E. split; [exact E'|]. cbn [skipn]. rewrite Eny in X.
-    replace (m_ny s + S k) with (S (m_ny s) + k) by lia. exact X.
+    destruct (sdl_next_iter gw rd a R s (b :: rest) sched H HR HA HS HWw HX) as (s1 & sched1 & gw1 & rd1 & a1 & R1 & E & H1 & HR1 & HA1 & HS1 & Eny & HW1 & HX1 & HP1).
+    destruct k as [|k].
+    + exists s1, sched1, gw1, rd1, a1, R1. cbn [replay]. rewrite E. cbn [replay skipn].
+      split; [reflexivity|]. split; [exact H1|]. split; [exact HR1|]. split; [exact HA1|]. split; [exact HS1|]. split; [lia|]. split; [exact HW1|]. split; [exact HX1|]. intros _; exact HP1.
+    + destruct (IH gw1 rd1 a1 R1 s1 rest sched1 ltac:(cbn in Hk; lia) H1 HR1 HA1 HS1 HW1 HX1) as (s' & sched' & gw' & rd' & a' & R' & E' & X1 & X2 & X3 & X4 & X5 & X6 & X7 & X8).
+      exists s', sched', gw', rd', a', R'. cbn [replay]. rewrite E. split; [exact E'|]. cbn [skipn]. rewrite Eny in X5.
+      split; [exact X1|]. split; [exact X2|]. split; [exact X3|]. split; [exact X4|]. split; [lia|]. split; [exact X6|]. split; [exact X7|]. intros _. apply X8. lia.
 Qed.
 
 End IterMain.
@@ -1950,19 +2142,20 @@ Definition snap_fresh : snapshot :=
 
 Lemma fresh_start : exists gw rd R,
   InvC c (Bw c) 0 gw rd (a0 0) R (sdl_fresh c) /\ Rest c (Bw c) gw rd R (sdl_fresh c) (reference c) /\ Act c gw rd (a0 0) (sdl_fresh c) /\
-  InvS c (Bw c) (m_ny (sdl_fresh c)) gw rd (sdl_fresh c) /\ m_ny (sdl_fresh c) = 0 /\ InvW c 0 wk_fresh0 gw rd (a0 0) (sdl_fresh c).
+  InvS c (Bw c) (m_ny (sdl_fresh c)) gw rd (sdl_fresh c) /\ m_ny (sdl_fresh c) = 0 /\ InvW c 0 wk_fresh0 gw rd (a0 0) (sdl_fresh c) /\
+  InvX c (Bw c) 0 wk_fresh0 gw rd (sdl_fresh c).
 Proof.
   destruct (start_iter c Hkind HW HP (Bw c) 0 HW ltac:(intros w _; cbn; lia) wk_fresh0 (repeat wk_fresh (c_W c)) 0 0 0 (c_W c - 1)
-              (repeat (0, false) (c_W c)) snap_fresh fresh_workers_ok (fresh_entries_ok snap_fresh eq_refl)) as (gw & rd & R & H & HR & HA & HS & Eny & HWw).
-  rewrite (refsuf_start c Hkind HW) in HR. exists gw, rd, R. auto 8.
+              (repeat (0, false) (c_W c)) snap_fresh fresh_workers_ok (fresh_entries_ok snap_fresh eq_refl)) as (gw & rd & R & H & HR & HA & HS & Eny & HWw & HX).
+  rewrite (refsuf_start c Hkind HW) in HR. exists gw, rd, R. auto 10.
 Qed.
 
 (* C03 (iterable datasets, every snapshot interval): for EVERY arrival schedule the epoch is the reference stream *)
 Theorem iter_epoch_exact : forall sched,
   outcomes c (S (length (reference c))) (sdl_fresh c) sched = map OBatch (reference c) ++ [OStop].
 Proof.
-  intros sched. destruct fresh_start as (gw & rd & R & H & HR & HA & HS & _ & HWw).
-  exact (outcomes_iter c Hkind HW HP (Bw c) 0 HW wk_fresh0 (reference c) gw rd (a0 0) R (sdl_fresh c) sched H HR HA HS HWw).
+  intros sched. destruct fresh_start as (gw & rd & R & H & HR & HA & HS & _ & HWw & HX).
+  exact (outcomes_iter c Hkind HW HP (Bw c) 0 HW wk_fresh0 (reference c) gw rd (a0 0) R (sdl_fresh c) sched H HR HA HS HWw HX).
 Qed.
 
 (* C05 / C01 (iterable datasets, every snapshot interval, EVERY arrival schedule, every k): in the state reached after k batches,
@@ -1975,9 +2168,9 @@ Theorem iter_entries_never_ahead : forall k sched, k <= length (reference c) ->
   exists gw rd a R, InvC c (Bw c) 0 gw rd a R (fst (replay c k (sdl_fresh c) sched)) /\
                     InvW c 0 wk_fresh0 gw rd a (fst (replay c k (sdl_fresh c) sched)).
 Proof.
-  intros k sched Hk. destruct fresh_start as (gw & rd & R & H & HR & HA & HS & _ & HWw).
-  destruct (replay_iter c Hkind HW HP (Bw c) 0 HW wk_fresh0 k gw rd (a0 0) R (sdl_fresh c) (reference c) sched Hk H HR HA HS HWw)
-    as (s' & sched' & gw' & rd' & a' & R' & E & H' & _ & _ & _ & _ & HW').
+  intros k sched Hk. destruct fresh_start as (gw & rd & R & H & HR & HA & HS & _ & HWw & HX).
+  destruct (replay_iter c Hkind HW HP (Bw c) 0 HW wk_fresh0 k gw rd (a0 0) R (sdl_fresh c) (reference c) sched Hk H HR HA HS HWw HX)
+    as (s' & sched' & gw' & rd' & a' & R' & E & H' & _ & _ & _ & _ & HW' & _).
   rewrite E. exists gw', rd', a', R'. split; assumption.
 Qed.
 
